@@ -526,3 +526,14 @@ _run_c04y = run
 def run(ctx):  # noqa: F811
     _run_c04y(ctx)
     r04_8(ctx, ctx.model)
+
+
+_run_c04x = run
+
+
+def run(ctx):  # noqa: F811
+    _run_c04x(ctx)
+    from .optattr import optional_attr_rule
+    optional_attr_rule(ctx, "R04.9", ["nifty.cl.operators.energy_operators", "nifty.cl.operators.jax_operator", "nifty.cl.operators.simplify_for_const",
+                                      "nifty.cl.operators.operator", "nifty.cl.operators.sum_operator", "nifty.cl.operators.chain_operator"],
+                       "the operators that can be specialised to constant input", floor=1)
